@@ -159,6 +159,66 @@ theorem ide_ok_iff (io : FloatIO F) (t : IDeT F) (s : Str) :
       | none => rfl
       | some w => obtain ⟨v, s3⟩ := w; rfl
 
+/-! composite types -/
+
+theorem imep_fail_untouched (io : FloatIO F) (tab : SymTab) (t : IMepT F) (s : Str)
+    (h : (IMepT.loadInto io tab t s).ok = false) : (IMepT.loadInto io tab t s).target = t := by
+  unfold IMepT.loadInto at h ⊢
+  cases hr : readU U32 s with
+  | none => rfl
+  | some p =>
+    obtain ⟨age, s1⟩ := p
+    simp only [hr] at h ⊢
+    cases hk : (IMepT.loadImplInto io tab t s1).ok with
+    | true => simp [hk] at h
+    | false => exact parseThenCommit_fail _ _ t s1 hk
+
+theorem imep_ok_iff (io : FloatIO F) (tab : SymTab) (t : IMepT F) (s : Str) :
+    (IMepT.loadInto io tab t s).ok = (IMep.load io tab s).isSome := by
+  unfold IMepT.loadInto IMep.load IMepT.loadImplInto IMep.parseImpl parseThenCommit
+  simp only [P.bind_apply]
+  cases readU U32 s with
+  | none => rfl
+  | some p =>
+    obtain ⟨age, s1⟩ := p
+    simp only []
+    cases readU U32 s1 with
+    | none => rfl
+    | some q =>
+      obtain ⟨rows, s2⟩ := q
+      simp only []
+      cases readU U32 s2 with
+      | none => rfl
+      | some q2 =>
+        obtain ⟨cols, s3⟩ := q2
+        simp only []
+        cases readN (Gene.load io tab) (rows * cols) s3 with
+        | none => rfl
+        | some w =>
+          obtain ⟨v, s4⟩ := w
+          simp only []
+          cases readBest rows s4 with
+          | none => rfl
+          | some b => obtain ⟨bb, s5⟩ := b; rfl
+
+theorem team_fail_untouched (io : FloatIO F) (tab : SymTab) (t : TeamT F) (s : Str)
+    (h : (TeamT.loadInto io tab t s).ok = false) : (TeamT.loadInto io tab t s).target = t :=
+  parseThenCommit_fail _ _ t s h
+theorem team_ok_iff (io : FloatIO F) (tab : SymTab) (t : TeamT F) (s : Str) :
+    (TeamT.loadInto io tab t s).ok = (Team.load io tab s).isSome := parseThenCommit_ok_iff _ _ t s
+
+theorem pop_fail_untouched (io : FloatIO F) (tab : SymTab) (t : List (Layer F)) (s : Str)
+    (h : (Pop.loadInto io tab t s).ok = false) : (Pop.loadInto io tab t s).target = t :=
+  parseThenCommit_fail _ _ t s h
+theorem pop_ok_iff (io : FloatIO F) (tab : SymTab) (t : List (Layer F)) (s : Str) :
+    (Pop.loadInto io tab t s).ok = (Pop.load io tab s).isSome := parseThenCommit_ok_iff _ _ t s
+
+theorem summary_fail_untouched (io : FloatIO F) (tab : SymTab) (t : Summary F) (s : Str)
+    (h : (Summary.loadInto io tab t s).ok = false) : (Summary.loadInto io tab t s).target = t :=
+  parseThenCommit_fail _ _ t s h
+theorem summary_ok_iff (io : FloatIO F) (tab : SymTab) (t : Summary F) (s : Str) :
+    (Summary.loadInto io tab t s).ok = (Summary.load io tab s).isSome := parseThenCommit_ok_iff _ _ t s
+
 /-- non-vacuity of (b): a truncated stream makes the model fail, and the target survives -/
 example : (IGaT.loadInto ⟨3, [1, 2], ⟨5, 6⟩⟩ ['7', '\n', '2', '\n', '9', '\n']).ok = false := by decide
 example : (IGaT.loadInto ⟨3, [1, 2], ⟨5, 6⟩⟩ ['7', '\n', '2', '\n', '9', '\n', '8', '\n']).target
